@@ -256,7 +256,7 @@ class Unique(Family):
 PROP = Property(
     id="C20",
     title="Chunk, slice and broadcast helpers are exact",
-    theorems=["C20.findChunkShape_spec"],
+    theorems=["C20.findChunkShape_spec", "C20.iterateChunks_partition", "C20.iterateChunks_nmax", "C20.unbroadcast_roundtrip", "C20.unique_spec", "C20.viewShape_slice_length"],
     families=[SliceIndices(), Fcs(), Iter(), Comb(), Unbroadcast(), ViewShape(), Unique()],
     trusted_base=["numpy striding / as_strided, pandas.factorize(sort=True), CPython slice.indices (the latter validated by the slidx L0 family)"],
     assumptions=["numpy and pandas behave as their L0 models on the explored scope"],
